@@ -32,7 +32,7 @@ func (a *Analysis) CheckC12(rep *Report) {
 		for _, r := range t.Regs {
 			nreg++
 			k := t.Name + "[" + r.Key + "]"
-			rpos := a.P.Pos(r.Call.Pos())
+			rpos := a.P.Pos(r.Pos())
 			if prev, dup := got[r.Key]; dup {
 				rep.Ob("T1-no-duplicate-key", k, false, rpos, fmt.Sprintf("key %s is registered twice (%s and %s); the later one silently wins", r.Key, prev.Type, r.Type))
 			}
@@ -55,7 +55,7 @@ func (a *Analysis) CheckC12(rep *Report) {
 			rep.Ob("T1-pinned-key-registered", t.Name+"["+k+"]", ok, pos, fmt.Sprintf("pinned discriminator %s -> %s is not registered", k, gold[k]))
 		}
 		rep.Ob("T6-table-private", t.Name, len(t.OtherRefs) == 0, pos, fmt.Sprintf("table is referenced by %d instructions outside its registrar's update and lookup's read", len(t.OtherRefs)))
-		rep.Ob("T6-one-registrar-one-lookup", t.Name, len(t.Registrar) == 1 && len(t.Lookups) >= 1, pos, fmt.Sprintf("%d functions update the table, %d read it", len(t.Registrar), len(t.Lookups)))
+		rep.Ob("T6-one-registrar-one-lookup", t.Name, len(t.Registrar) <= 1 && len(t.Lookups) >= 1, pos, fmt.Sprintf("%d functions update the table, %d read it", len(t.Registrar), len(t.Lookups)))
 		// T2
 		for _, lf := range t.Lookups {
 			paths, err := a.engineFor(lf).AnalyzeRoot(lf, nil)
@@ -171,7 +171,7 @@ func (a *Analysis) CheckC12(rep *Report) {
 								ok = false
 							}
 						}
-						rep.Ob("T5-key-reachable", t.Name+"["+r.Key+"]", ok, a.P.Pos(r.Call.Pos()),
+						rep.Ob("T5-key-reachable", t.Name+"["+r.Key+"]", ok, a.P.Pos(r.Pos()),
 							fmt.Sprintf("key %s can never equal a decoded %d-byte key field (too long, empty, or ends with the pad byte that is stripped)", r.Key, kf.Width))
 					}
 				}
